@@ -1,0 +1,16 @@
+//go:build verif
+
+package rdf
+
+// VerifBlankNodeInfo exposes the unexported identity of identifiers allocated by the factories of this package to the
+// verification harness: kind ("default", "factory" or ""), the counter value and the owning factory.
+func VerifBlankNodeInfo(id BlankNodeIdentifier) (kind string, v int64, scope BlankNodeFactory) {
+	switch t := id.(type) {
+	case bnDefault:
+		return "default", t.v, DefaultBlankNodeFactory
+	case bn:
+		return "factory", t.v, t.s
+	}
+
+	return "", 0, nil
+}
